@@ -58,7 +58,7 @@ func c15Ops(w int) []c15Op {
 	for d := 1; d <= c15MaxDelay; d++ {
 		ops = append(ops, c15Op{Op: "acceptd", D: d})
 	}
-	ops = append(ops, c15Op{Op: "acceptd", D: 0}, c15Op{Op: "json"})
+	ops = append(ops, c15Op{Op: "acceptd", D: 0}, c15Op{Op: "json"}, c15Op{Op: "json", D: 1})
 	return ops
 }
 
@@ -236,6 +236,16 @@ func c15Exec(hist []c15Op, outcome func(string)) (string, bool, []lib.Problem) {
 				break
 			}
 			np := new(queueing.Pipeline[int])
+			if op.D == 1 {
+				// decode into a pipeline that has been used (and still holds
+				// items of its own) instead of a fresh one
+				used := queueing.NewPipeline[int](W+1, S+1)
+				for k := 0; k < W+1; k++ {
+					used.AcceptWithDelay(9000+k, k%2)
+				}
+				used.Tick(&c15Sink{room: -1})
+				np = &used
+			}
 			if err := json.Unmarshal(data, np); err != nil {
 				bad("json-unmarshal", "after-json", "%v", err)
 				break
@@ -302,7 +312,7 @@ func init() {
 	lib.Register(&lib.Check{
 		ID:    "C15",
 		Level: "model_checking",
-		Rule: "explicit-state BFS over histories of {Accept, AcceptWithDelay(0|1|2) (both only while a lane is free), Tick(sink has room), Tick(sink takes exactly one item; width>1), Tick(sink full), JSON round trip} on the real queueing.Pipeline[int] for width {1,2,3} x stages {1,2,3}, plus a scale family on (width,stages) in {(16,1),(17,2),(20,8),(33,5),(3,50)} [thorough +(17,1),(40,1),(64,3),(129,1)]: every sequence of 5 rounds {fill every free lane with dwell delays 0,1,2,..; tick kind in {free sink, one item, full sink}} with a JSON round trip after round 2, " +
+		Rule: "explicit-state BFS over histories of {Accept, AcceptWithDelay(0|1|2) (both only while a lane is free), Tick(sink has room), Tick(sink takes exactly one item; width>1), Tick(sink full), JSON round trip into a fresh pipeline, JSON round trip into a used pipeline of another shape} on the real queueing.Pipeline[int] for width {1,2,3} x stages {1,2,3}, plus a scale family on (width,stages) in {(16,1),(17,2),(20,8),(33,5),(3,50)} [thorough +(17,1),(40,1),(64,3),(129,1)]: every sequence of 5 rounds {fill every free lane with dwell delays 0,1,2,..; tick kind in {free sink, one item, full sink}} with a JSON round trip after round 2, " +
 			"8 (quick) / 12 (thorough) steps, each history followed by a drain phase of stages+2+steps+2 ticks with a free sink. A ledger of accepted items is the reference: after every step Stages() must hold exactly the in-flight items once each with no two sharing (lane, stage); every pushed item must be in flight; " +
 			"one-lane pipelines emit oldest-first; while every tick so far had a free sink each item leaves exactly stages+delay ticks after acceptance; after the drain phase everything has left. state = (width, stages, occupancy records in slice order with items ranked by acceptance, ages/delays while the sink was always free)",
 		MinOutcomes: 100,
